@@ -22,9 +22,9 @@ type xzBlockM struct {
 	// as this unsigned integer; PropSizeV replaces the one-byte "size of properties" by a multi-byte
 	// integer while still one property byte follows
 	CompV, UncompV, PropSizeV uint64
-	Data         []byte
-	Pad          []byte
-	Check        []byte
+	Data                      []byte
+	Pad                       []byte
+	Check                     []byte
 }
 
 type xzRecM struct{ Unpadded, Uncomp uint64 }
